@@ -1,6 +1,6 @@
 use crate::internal::category::Category;
 use crate::internal::codepage::CodePage;
-use crate::internal::column::Column;
+use crate::internal::column::{Column, ColumnType};
 use crate::internal::expr::Expr;
 use crate::internal::query::{Delete, Insert, Select, Update};
 use crate::internal::stream::{StreamReader, StreamWriter, Streams};
@@ -606,6 +606,25 @@ impl<F: Read + Write + Seek> Package<F> {
                     );
                 }
                 column_names.insert(name);
+                if let ColumnType::Str(max_len) = column.coltype() {
+                    if max_len > 255 {
+                        invalid_input!(
+                            "Column {:?} has a string width of {}, but the \
+                             maximum is 255",
+                            name,
+                            max_len
+                        );
+                    }
+                }
+                if let Some(values) = column.enum_values() {
+                    if values.iter().any(|v| v.is_empty() || v.contains(';')) {
+                        invalid_input!(
+                            "Column {:?} has an enum value that is empty or \
+                             contains a semicolon",
+                            name
+                        );
+                    }
+                }
             }
         }
         if self.tables.contains_key(&table_name) {
@@ -880,7 +899,7 @@ impl<F: Read + Write + Seek> Finish<F> for FinishImpl {
 mod tests {
     use super::{Package, PackageType};
     use crate::internal::codepage::CodePage;
-    use crate::internal::column::Column;
+    use crate::internal::column::{Column, ColumnType};
     use crate::internal::expr::Expr;
     use crate::internal::query::{Insert, Select, Update};
     use crate::internal::value::Value;
